@@ -38,27 +38,27 @@ def make_call(W, entry):
     STD = "quara.protocol.qtomography.standard."
     if entry.startswith("Experiment"):
         exp = W.mod("quara.qcircuit.experiment").Experiment(states=[states[2]], povms=povms, gates=[],
-                                                               schedules=[[("state", 0), ("povm", j)] for j in range(3)])
+                                                               schedules=[[("state", 0), ("povm", j)] for j in range(3)], seed_data=5)
         if entry.endswith("generate_data"):
             return lambda s: exp.generate_data(2, 2, s)
         return lambda s: exp.generate_empi_dists_sequence([[10, 10, 10], [20, 20, 20]], s)
     cls = entry.split(".")[0]
     true_state = states[1]
     if cls == "StandardQst":
-        qt = W.mod(STD + "standard_qst").StandardQst(povms, on_para_eq_constraint=True)
+        qt = W.mod(STD + "standard_qst").StandardQst(povms, on_para_eq_constraint=True, seed_data=5)
         if entry.endswith("generate_empi_dist"):
             return lambda s: qt.generate_empi_dist(0, true_state, 10, s)
         if entry.endswith("generate_empi_dists"):
             return lambda s: qt.generate_empi_dists(true_state, 10, s)
         return lambda s: qt.generate_empi_dists_sequence(true_state, [10, 20], s)
     if cls == "StandardPovmt":
-        qt = W.mod(STD + "standard_povmt").StandardPovmt(states, 2, on_para_eq_constraint=True)
+        qt = W.mod(STD + "standard_povmt").StandardPovmt(states, 2, on_para_eq_constraint=True, seed_data=5)
         return lambda s: qt.generate_empi_dists(povms[0], 10, s)
     if cls == "StandardQpt":
-        qt = W.mod(STD + "standard_qpt").StandardQpt(states, povms, on_para_eq_constraint=True)
+        qt = W.mod(STD + "standard_qpt").StandardQpt(states, povms, on_para_eq_constraint=True, seed_data=5)
         gate = W.mod("quara.objects.gate").Gate(c_sys, np.eye(4, dtype=np.float64), is_physicality_required=False)
         return lambda s: qt.generate_empi_dists(gate, 10, s)
-    qt = W.mod(STD + "standard_qmpt").StandardQmpt(states, povms, 2, on_para_eq_constraint=True)
+    qt = W.mod(STD + "standard_qmpt").StandardQmpt(states, povms, 2, on_para_eq_constraint=True, seed_data=5)
     hss = [np.eye(4, dtype=np.float64) / 2, np.eye(4, dtype=np.float64) / 2]
     mp = W.mod("quara.objects.mprocess").MProcess(c_sys, hss, is_physicality_required=False)
     return lambda s: qt.generate_empi_dists(mp, 10, s)
@@ -100,89 +100,113 @@ class SeededGeneration(E2Contract):
     n_conformance = 0          # ghost draws are not the generator's numbers: value conformance is meaningless here
     max_paths = 64
 
+    SCENARIOS = ("seed7", "seed0", "generator", "none")
+
     def configs(self, tier):
-        return list(ENTRY_POINTS)
+        return [(e, sc) for e in ENTRY_POINTS for sc in self.SCENARIOS]
 
     def inputs(self, W, cfg, mk):
         return dict(probe=mk.real("probe"))
 
     def run(self, W, cfg, inp):
-        f = make_call(W, cfg)
+        entry, sc = cfg
+        f = make_call(W, entry)
         out = {}
         if W.symbolic:
             rnd = W.np.random
-            # (1) integer seed
-            symrandom.reset()
-            g0 = symrandom.GLOBAL.pos
-            r = f(7)
-            log = list(symrandom.DRAW_LOG)
-            out["seed/uses-global-stream"] = any(e[0][0] == "G" for e in log) or symrandom.GLOBAL.pos != g0
-            out["seed/reproducible"] = all(e[0] == ("seed", 7) for e in log) and [e[1] for e in log] == list(range(len(log))) and len(log) > 0
-            out["empi"] = [(n, list((d * n).a.tolist()) if hasattr(d, "a") else d) for n, d in empi_pairs(r)]
-            # (2) a caller-owned generator
-            symrandom.reset()
-            gen = rnd.Generator(rnd.MT19937(11))
-            gen.pos = 5
-            f(gen)
-            log = list(symrandom.DRAW_LOG)
-            out["generator/advances"] = gen.pos == 5 + len(log) and len(log) > 0 and [e[1] for e in log] == list(range(5, 5 + len(log)))
-            out["generator/uses-only-it"] = all(e[0] == ("seed", 11) for e in log)
-            # (3) no seed: the global state
-            symrandom.reset()
-            f(None)
-            log = list(symrandom.DRAW_LOG)
-            out["none/uses-global-stream"] = len(log) > 0 and all(e[0][0] == "G" for e in log)
+            if sc in ("seed7", "seed0"):
+                sd = 7 if sc == "seed7" else 0
+                symrandom.reset()
+                g0 = (symrandom.GLOBAL.sid, symrandom.GLOBAL.pos)
+                r = f(sd)
+                log = list(symrandom.DRAW_LOG)
+                out["seed/uses-global-stream"] = any(e[0][0] == "G" for e in log) or (symrandom.GLOBAL.sid, symrandom.GLOBAL.pos) != g0
+                out["seed/reproducible"] = all(e[0] == ("seed", sd) for e in log) and len(log) > 0
+                symrandom.reset()
+                f(rnd.Generator(rnd.MT19937(sd)))
+                out["seed/same-as-fresh-generator"] = list(symrandom.DRAW_LOG) == log
+                out["empi"] = [(n, list((d * n).a.tolist()) if hasattr(d, "a") else d) for n, d in empi_pairs(r)]
+            elif sc == "generator":
+                symrandom.reset()
+                gen = rnd.Generator(rnd.MT19937(11))
+                gen.pos = 5
+                f(gen)
+                log = list(symrandom.DRAW_LOG)
+                out["generator/advances"] = gen.pos == 5 + len(log) and len(log) > 0 and [e[1] for e in log] == list(range(5, 5 + len(log)))
+                out["generator/uses-only-it"] = all(e[0] == ("seed", 11) for e in log)
+            else:
+                symrandom.reset()
+                f(None)
+                n1 = len(symrandom.DRAW_LOG)
+                f(None)
+                log = list(symrandom.DRAW_LOG)
+                out["none/uses-global-stream"] = len(log) > 0 and all(e[0] == ("G",) for e in log)
+                out["none/continues-the-global-stream"] = n1 > 0 and [e[1] for e in log] == list(range(len(log)))
             return out
         import numpy
-        numpy.random.seed(123)
-        a = _norm(f(7))
-        st = numpy.random.get_state()[1].tolist()
-        numpy.random.seed(456)
-        numpy.random.random(5)
-        b = _norm(f(7))
-        numpy.random.seed(123)
-        f(7)
-        st2 = numpy.random.get_state()[1].tolist()
-        out["seed/uses-global-stream"] = (a != b) or (st != st2)
-        out["seed/reproducible"] = a == b
-        r = f(7)
-        out["empi"] = [(n, [round(float(x) * n, 9) for x in d]) for n, d in empi_pairs(r)]
-        gen = numpy.random.Generator(numpy.random.MT19937(11))
-        s0 = str(gen.bit_generator.state)
-        numpy.random.seed(1)
-        x1 = _norm(f(gen))
-        s1 = str(gen.bit_generator.state)
-        numpy.random.seed(2)
-        x2 = _norm(f(numpy.random.Generator(numpy.random.MT19937(11))))
-        out["generator/advances"] = s0 != s1
-        out["generator/uses-only-it"] = x1 == x2
-        numpy.random.seed(99)
-        y1 = _norm(f(None))
-        numpy.random.seed(99)
-        y2 = _norm(f(None))
-        numpy.random.seed(100)
-        y3 = _norm(f(None))
-        out["none/uses-global-stream"] = y1 == y2
+        state = lambda: numpy.random.get_state()[1].tolist()
+        if sc in ("seed7", "seed0"):
+            sd = 7 if sc == "seed7" else 0
+            numpy.random.seed(123)
+            s_before = state()
+            a = _norm(f(sd))
+            s_after = state()
+            numpy.random.seed(456)
+            numpy.random.random(5)
+            b = _norm(f(sd))
+            out["seed/uses-global-stream"] = (a != b) or (s_before != s_after)
+            out["seed/reproducible"] = a == b
+            out["seed/same-as-fresh-generator"] = a == _norm(f(numpy.random.Generator(numpy.random.MT19937(sd))))
+            r = f(sd)
+            out["empi"] = [(n, [round(float(x) * n, 9) for x in d]) for n, d in empi_pairs(r)]
+        elif sc == "generator":
+            gen = numpy.random.Generator(numpy.random.MT19937(11))
+            s0 = str(gen.bit_generator.state)
+            numpy.random.seed(1)
+            x1 = _norm(f(gen))
+            s1 = str(gen.bit_generator.state)
+            numpy.random.seed(2)
+            x2 = _norm(f(numpy.random.Generator(numpy.random.MT19937(11))))
+            out["generator/advances"] = s0 != s1
+            out["generator/uses-only-it"] = x1 == x2
+        else:
+            numpy.random.seed(99)
+            y1 = _norm(f(None))
+            f(None)
+            e1 = state()
+            numpy.random.seed(99)
+            y2 = _norm(f(None))
+            numpy.random.seed(100)
+            f(None)
+            f(None)
+            e2 = state()
+            out["none/uses-global-stream"] = y1 == y2
+            # the state after two unseeded calls depends on the state before them (no re-seeding on the way)
+            out["none/continues-the-global-stream"] = e1 != e2
         return out
 
     def post(self, W, cfg, inp, out):
-        cl = [eq("seed/independent-of-global-state", out["seed/uses-global-stream"], False,
-                 "with an integer seed no draw comes from (or advances) the global random state"),
-              eq("seed/function-of-the-seed", out["seed/reproducible"], True,
-                 "with an integer seed all draws come from the stream identified by the seed, from its start: same seed, same output"),
-              eq("generator/advances-so-successive-draws-differ", out["generator/advances"], True,
-                 "a caller-owned generator is advanced by exactly the draws made"),
-              eq("generator/no-other-source", out["generator/uses-only-it"], True, "and nothing else is drawn from"),
-              eq("none/global-state", out["none/uses-global-stream"], True, "without seed the global numpy state is the source")]
-        ok = True
-        for n, counts in out["empi"]:
-            tot = 0
-            for c in counts:
-                tot = tot + c
-            if W.symbolic:
-                # entries are multinomial count symbols: count / n * n == count (exact) and the counts sum to n by the library contract
-                pass
-            else:
-                ok = ok and abs(tot - n) < 1e-6 and all(abs(c - round(c)) < 1e-6 and c >= 0 for c in counts)
-        cl.append(eq("empirical-distribution==counts/n", ok, True, "every empirical distribution is a vector of counts divided by its sample size"))
-        return cl
+        entry, sc = cfg
+        if sc in ("seed7", "seed0"):
+            cl = [eq("seed/independent-of-global-state", out["seed/uses-global-stream"], False,
+                     "with an integer seed no draw comes from (or advances) the global random state"),
+                  eq("seed/function-of-the-seed", out["seed/reproducible"], True,
+                     "with an integer seed all draws come from the stream identified by the seed: same seed, same output"),
+                  eq("seed/same-as-a-fresh-generator-of-that-seed", out["seed/same-as-fresh-generator"], True,
+                     "an integer seed s (0 included) means one generator MT19937(s), consumed once from its start by the whole call")]
+            ok = True
+            for n, counts in out["empi"]:
+                tot = 0
+                for c in counts:
+                    tot = tot + c
+                if not W.symbolic:
+                    ok = ok and abs(tot - n) < 1e-6 and all(abs(c - round(c)) < 1e-6 and c >= 0 for c in counts)
+            cl.append(eq("empirical-distribution==counts/n", ok, True, "every empirical distribution is a vector of counts divided by its sample size"))
+            return cl
+        if sc == "generator":
+            return [eq("generator/advances-so-successive-draws-differ", out["generator/advances"], True,
+                       "a caller-owned generator is advanced by exactly the draws made"),
+                    eq("generator/no-other-source", out["generator/uses-only-it"], True, "and nothing else is drawn from")]
+        return [eq("none/global-state", out["none/uses-global-stream"], True, "without seed the global numpy state is the source"),
+                eq("none/successive-calls-continue-the-global-stream", out["none/continues-the-global-stream"], True,
+                   "unseeded calls consume the global stream onwards; nothing on the way re-seeds it")]
